@@ -7,7 +7,9 @@
 #ifndef VT_H
 #define VT_H
 
+#ifndef _GNU_SOURCE
 #define _GNU_SOURCE
+#endif
 #include <stdint.h>
 #include <stddef.h>
 #include <poll.h>
@@ -84,6 +86,7 @@ void vt_set_virtual(int on);		/* 0: pass time through (tsan build) */
 typedef void (*vt_stim_fn)(void *arg);
 void vt_stim_at(int64_t t_abs_ns, vt_stim_fn fn, void *arg);
 int  vt_stim_pending(void);
+void vt_interrupt_wait(void);		/* from a stimulus function: the deciding thread's wait returns EINTR (a signal arrived at this virtual instant) */
 
 /* harness-side blocking (join, barrier ...) so that the quiescence account stays right */
 void vt_block_begin(void);
